@@ -67,7 +67,12 @@ def main():
             if not (os.path.exists(patch) and os.path.exists(demo)):
                 print(f'{pid}-{n}: missing patch or demo'); continue
             meta = {'property': pid, 'n': n, 'ran': []}
+            needs = json.load(open(f'{VERIF}/seeded/needs.json')) if os.path.exists(f'{VERIF}/seeded/needs.json') else {}
+            meta['needs'] = needs.get(f'{pid}-{n}', '')
+            meta['breaks_property'] = pid
             sh('git checkout -- . ', cwd=wt)
+            sh('git checkout -q --detach $(git -C /repo rev-parse HEAD)', cwd=wt)
+            meta['base_commit'] = sh('git -C /repo rev-parse HEAD').stdout.strip()
             # move all demos aside, then install only this one when needed
             for f in os.listdir(f'{wt}/tests'):
                 if f.startswith('seed_demo'): os.remove(f'{wt}/tests/{f}')
@@ -107,6 +112,13 @@ def main():
                     c = scratch_check(cid) if scratch else sh(f'{VERIF}/check {cid} quick', env={'VERIF_OUT': OUT})
                     sig = [l.strip() for l in c.stdout.splitlines() if l.strip().startswith('signature:')]
                     meta['checks'][cid] = {'exit': c.returncode, 'signature': sig[:1], 'wall_s': round(time.time() - t0, 1)}
+                    if cid == pid and c.returncode == 1:
+                        for l in c.stdout.splitlines():
+                            if l.startswith('VIOLATION') and 'replay=' in l:
+                                src = l.split('replay=')[1].strip()
+                                if os.path.exists(src):
+                                    os.makedirs(f'{VERIF}/regressions/{cid}', exist_ok=True)
+                                    shutil.copy(src, f'{VERIF}/regressions/{cid}/seeded_{pid}-{n}.json')
             finally:
                 sh(f'git -C {target_repo} checkout -- . ')
             meta['ran'].append('git -C /repo apply patch.diff; ./check <ID> quick (VERIF_OUT redirected); git -C /repo checkout -- .')
